@@ -185,6 +185,9 @@ func judge(o callOut, op string, exp outcome, e *cz.Embedding, sch *cz.Schema) (
 	if !accepted || exp.V == nil || (op != "unser" && op != "ser") {
 		return "", nil, false
 	}
+	if (exp.V.K == "int" && exp.V.N == cz.HugeAmount) || (exp.V.K == "float" && exp.V.N == 2*cz.HugeAmount) {
+		return "", nil, false // an amount beyond the model line: compared with math/big by bigAmountCheck
+	}
 	var got *cz.Value
 	var err error
 	if op == "unser" {
@@ -558,6 +561,38 @@ func isScalarKind(k string) bool {
 	return false
 }
 
+// bigAmountCheck: a unit string of group "big" accepted by an int / float schema with units must give exactly
+// the amount math/big computes for it.
+func bigAmountCheck(c *vecCase, o callOut) (string, bool) {
+	if c.Op != "unser" || o.Err != nil || c.Arg.K != "str" || !c.S.Units.Some {
+		return "", true
+	}
+	t, ok := cz.TokenByID(c.Arg.S)
+	if !ok || !strings.HasPrefix(t.ID, "#big:") {
+		return "", true
+	}
+	set := cz.UnitSetByID(c.S.Units.V)
+	if set == nil {
+		return "", true
+	}
+	amount, lexed := cz.BigAmount(t.Text, set)
+	if !lexed {
+		return fmt.Sprintf("accepted %q, which is no unit string of %s", t.Text, set.ID), false
+	}
+	switch v := o.Val.(type) {
+	case int64:
+		if big.NewInt(v).Cmp(amount) != 0 {
+			return fmt.Sprintf("%q denotes %s, Unserialize returned %d", t.Text, amount, v), false
+		}
+	case float64:
+		want, _ := new(big.Float).SetInt(amount).Float64()
+		if v != want {
+			return fmt.Sprintf("%q denotes %s, Unserialize returned %v", t.Text, amount, v), false
+		}
+	}
+	return "", true
+}
+
 func runVector(c *vecCase) *resT {
 	r := &resT{Evals: 1}
 	r.Key = c.S.Shape() + "|" + c.Op + "|" + c.Arg.Key() + "|" + c.Exp.OK
@@ -586,6 +621,9 @@ func runVector(c *vecCase) *resT {
 		}
 		if b.TypedFallback {
 			r.Fallback++
+		}
+		if !ran {
+			rebuiltCheck(c, e, arg, r)
 		}
 		ran = true
 		type entry struct {
@@ -623,6 +661,11 @@ func runVector(c *vecCase) *resT {
 			div, d, inexp := judge(o, c.Op, c.Exp, e, c.S)
 			if inexp {
 				r.Inexpressible++
+			}
+			if div == "" {
+				if msg, ok := bigAmountCheck(c, o); !ok {
+					div, d = "value", map[string]any{"math_big": msg}
+				}
 			}
 			if en.name == "untyped" {
 				untypedDiv = div
@@ -681,6 +724,9 @@ func checkStrings(b *bindCase) string {
 		return fmt.Sprintf("Values.tla IMin/IMax/SymLen = %d/%d/%d, the harness assumes %d/%d/%d", b.IMin, b.IMax, b.SymLen, cz.IMin, cz.IMax, cz.SymLen)
 	}
 	if err := cz.CheckSecUnits(); err != nil {
+		return err.Error()
+	}
+	if err := cz.CheckUnitSets(); err != nil {
 		return err.Error()
 	}
 	// struct layouts of SchemaAST.tla against the real struct types of harness/catalog
